@@ -1,21 +1,1161 @@
-//! Monitor for property C16 (see /verif/DESIGN.md §6).
+//! Monitor for property C16 (see /verif/DESIGN.md §6): DVI encoding round-trips and consumes
+//! every byte; deserialising arbitrary bytes never panics; `VarRemover` leaves the page position
+//! and font of every typeset character and rule, and every other operation, unchanged.
+//!
+//! Oracles (all observe executions of the real `dvi` crate):
+//!  * round trip `ops -> dvi::serialize -> Op::deserialize loop / dvi::Deserializer -> ops'`,
+//!    `ops' == ops` under our own field-by-field comparison, both readers agree, every byte is
+//!    consumed, and the byte string splits into commands exactly as the independent framing
+//!    model (`vmodels::dvipos::frame`, lengths by opcode from TeX §585-§591) says;
+//!  * crash oracle + framing model on random and mutated bytes: the reader returns exactly the
+//!    commands the framing model finds and ends `Ok`, `Truncated(op)` or `InvalidOpCode(op)` exactly
+//!    where and why the model says; whatever it returned round-trips again;
+//!  * `VarRemover`: the independent register machine `vmodels::dvipos::Tracker` replays input
+//!    and output; every placed character/rule must have the same page, h (integer + multiset of
+//!    unmeasured widths), v and font; the operations other than moves are unchanged; no
+//!    `Move`/`SetVar` remains. Also through the `dvitools normalize` pipeline
+//!    (bytes -> Deserializer -> VarRemover -> serialize).
+
+mod gen;
+
+use dvi::transforms::VarRemover;
+use dvi::{Deserializer, InvalidDviData, Op, Var};
+use gen::Profile;
+use std::sync::OnceLock;
 use vcore::*;
+use vmodels::dvipos::{self, FrameEnd, Placed, Reg, TOp, Tracker};
 
 pub struct M;
 pub static MONITOR: M = M;
+
+const KF_POSTPOST: &str = "C16-post-post-absorbs-fnt-num-52";
+
+fn reg(v: Var) -> Reg {
+    match v {
+        Var::W => Reg::W,
+        Var::X => Reg::X,
+        Var::Y => Reg::Y,
+        Var::Z => Reg::Z,
+    }
+}
+
+/// dvi::Op -> the model's tiny operation.
+pub fn to_tiny(op: &Op) -> TOp {
+    match op {
+        Op::TypesetChar { char, move_h: true } => TOp::SetChar(*char),
+        Op::TypesetChar { char, move_h: false } => TOp::PutChar(*char),
+        Op::TypesetRule {
+            height,
+            width,
+            move_h: true,
+        } => TOp::SetRule {
+            height: *height,
+            width: *width,
+        },
+        Op::TypesetRule {
+            height,
+            width,
+            move_h: false,
+        } => TOp::PutRule {
+            height: *height,
+            width: *width,
+        },
+        Op::NoOp => TOp::Nop,
+        Op::BeginPage { .. } => TOp::Bop,
+        Op::EndPage => TOp::Eop,
+        Op::Push => TOp::Push,
+        Op::Pop => TOp::Pop,
+        Op::Right(d) => TOp::Right(*d),
+        Op::Move(v) => TOp::Move(reg(*v)),
+        Op::SetVar(v, d) => TOp::SetReg(reg(*v), *d),
+        Op::Down(d) => TOp::Down(*d),
+        Op::EnableFont(f) => TOp::Fnt(*f),
+        Op::Extension(_)
+        | Op::DefineFont { .. }
+        | Op::Preamble { .. }
+        | Op::BeginPostamble { .. }
+        | Op::EndPostamble { .. } => TOp::Inert,
+    }
+}
+
+/// Field-by-field equality, written out so that the verdict does not depend on the crate's own
+/// `PartialEq`.
+fn same_op(a: &Op, b: &Op) -> bool {
+    use Op::*;
+    match (a, b) {
+        (
+            TypesetChar { char: c1, move_h: m1 },
+            TypesetChar { char: c2, move_h: m2 },
+        ) => c1 == c2 && m1 == m2,
+        (
+            TypesetRule {
+                height: h1,
+                width: w1,
+                move_h: m1,
+            },
+            TypesetRule {
+                height: h2,
+                width: w2,
+                move_h: m2,
+            },
+        ) => h1 == h2 && w1 == w2 && m1 == m2,
+        (NoOp, NoOp) | (EndPage, EndPage) | (Push, Push) | (Pop, Pop) => true,
+        (
+            BeginPage {
+                parameters: p1,
+                previous_begin_page: q1,
+            },
+            BeginPage {
+                parameters: p2,
+                previous_begin_page: q2,
+            },
+        ) => p1 == p2 && q1 == q2,
+        (Right(x), Right(y)) | (Down(x), Down(y)) => x == y,
+        (Move(v1), Move(v2)) => *v1 as u8 == *v2 as u8,
+        (SetVar(v1, x), SetVar(v2, y)) => *v1 as u8 == *v2 as u8 && x == y,
+        (EnableFont(x), EnableFont(y)) => x == y,
+        (Extension(x), Extension(y)) => x == y,
+        (
+            DefineFont {
+                number: n1,
+                checksum: c1,
+                at_size: a1,
+                design_size: d1,
+                area: ar1,
+                name: nm1,
+            },
+            DefineFont {
+                number: n2,
+                checksum: c2,
+                at_size: a2,
+                design_size: d2,
+                area: ar2,
+                name: nm2,
+            },
+        ) => n1 == n2 && c1 == c2 && a1 == a2 && d1 == d2 && ar1 == ar2 && nm1 == nm2,
+        (
+            Preamble {
+                dvi_format: f1,
+                unit_numerator: n1,
+                unit_denominator: d1,
+                magnification: m1,
+                comment: c1,
+            },
+            Preamble {
+                dvi_format: f2,
+                unit_numerator: n2,
+                unit_denominator: d2,
+                magnification: m2,
+                comment: c2,
+            },
+        ) => f1 == f2 && n1 == n2 && d1 == d2 && m1 == m2 && c1 == c2,
+        (
+            BeginPostamble {
+                final_begin_page: p1,
+                unit_numerator: n1,
+                unit_denominator: d1,
+                magnification: m1,
+                largest_height: h1,
+                largest_width: w1,
+                max_stack_depth: s1,
+                num_pages: t1,
+            },
+            BeginPostamble {
+                final_begin_page: p2,
+                unit_numerator: n2,
+                unit_denominator: d2,
+                magnification: m2,
+                largest_height: h2,
+                largest_width: w2,
+                max_stack_depth: s2,
+                num_pages: t2,
+            },
+        ) => p1 == p2 && n1 == n2 && d1 == d2 && m1 == m2 && h1 == h2 && w1 == w2 && s1 == s2 && t1 == t2,
+        (
+            EndPostamble {
+                postamble: p1,
+                dvi_format: f1,
+                num_223_bytes: n1,
+            },
+            EndPostamble {
+                postamble: p2,
+                dvi_format: f2,
+                num_223_bytes: n2,
+            },
+        ) => p1 == p2 && f1 == f2 && n1 == n2,
+        _ => false,
+    }
+}
+
+fn same_ops(a: &[Op], b: &[Op]) -> bool {
+    a.len() == b.len() && a.iter().zip(b).all(|(x, y)| same_op(x, y))
+}
+
+fn first_difference(a: &[Op], b: &[Op]) -> Option<usize> {
+    let n = a.len().min(b.len());
+    for i in 0..n {
+        if !same_op(&a[i], &b[i]) {
+            return Some(i);
+        }
+    }
+    if a.len() != b.len() {
+        Some(n)
+    } else {
+        None
+    }
+}
+
+fn short(op: &Op) -> String {
+    let mut s = format!("{op:?}");
+    if s.len() > 300 {
+        let mut cut = 300;
+        while !s.is_char_boundary(cut) {
+            cut -= 1;
+        }
+        s.truncate(cut);
+        s.push_str("...");
+    }
+    s
+}
+
+fn show_ops(ops: &[Op]) -> Value {
+    let v: Vec<String> = ops.iter().take(220).map(short).collect();
+    json!(v)
+}
+
+fn show_bytes(b: &[u8]) -> Value {
+    if b.len() <= 600 {
+        json!(b)
+    } else {
+        json!({"len": b.len(), "head": &b[..300], "tail": &b[b.len() - 100..]})
+    }
+}
+
+/// The one known deviation of the round trip: `post_post` owns every following byte 223, and 223
+/// is also the one-byte command `fnt_num_52`. What the reader returns for such a stream today:
+fn merge_post_post(ops: &[Op]) -> (Vec<Op>, bool) {
+    let mut out: Vec<Op> = vec![];
+    let mut triggered = false;
+    let mut absorbing = false;
+    for op in ops {
+        if absorbing {
+            if let Op::EnableFont(52) = op {
+                if let Some(Op::EndPostamble { num_223_bytes, .. }) = out.last_mut() {
+                    *num_223_bytes += 1;
+                    triggered = true;
+                    continue;
+                }
+            }
+        }
+        absorbing = matches!(op, Op::EndPostamble { .. });
+        out.push(op.clone());
+    }
+    (out, triggered)
+}
+
+fn strings_fit(ops: &[Op]) -> bool {
+    ops.iter().all(|op| match op {
+        Op::DefineFont { area, name, .. } => area.len() <= 255 && name.len() <= 255,
+        Op::Preamble { comment, .. } => comment.len() <= 255,
+        _ => true,
+    })
+}
+
+struct Decoded {
+    ops: Vec<Op>,
+    /// bytes consumed by each command
+    lens: Vec<usize>,
+    end: Result<(), InvalidDviData>,
+    residual: usize,
+}
+
+/// Read `bytes` with the step API (`Op::deserialize`) and with the iterator (`Deserializer`) and
+/// insist that they agree. `None` = a panic or a disagreement was reported.
+fn decode(bytes: &[u8], obs: &mut Obs, ctx: &Value) -> Option<Decoded> {
+    let mut ops = vec![];
+    let mut lens = vec![];
+    let mut rest: &[u8] = bytes;
+    let end;
+    loop {
+        match catch(|| Op::deserialize(rest)) {
+            Err(p) => {
+                obs.repo_panic(&p, json!({"what": "Op::deserialize panicked", "bytes": show_bytes(bytes), "offset": bytes.len() - rest.len(), "context": ctx}));
+                return None;
+            }
+            Ok(Ok(Some((op, tail)))) => {
+                if tail.len() >= rest.len() || !rest.ends_with(tail) {
+                    obs.violation(
+                        "deserialize:no-progress-or-foreign-tail",
+                        json!({"bytes": show_bytes(bytes), "offset": bytes.len() - rest.len(), "context": ctx}),
+                    );
+                    return None;
+                }
+                lens.push(rest.len() - tail.len());
+                ops.push(op);
+                rest = tail;
+            }
+            Ok(Ok(None)) => {
+                end = Ok(());
+                break;
+            }
+            Ok(Err(e)) => {
+                end = Err(e);
+                break;
+            }
+        }
+    }
+    let residual = rest.len();
+    // the iterator API must tell the same story
+    let it = catch(|| {
+        let mut result = Ok(());
+        let got: Vec<Op> = Deserializer::new(bytes, &mut result).collect();
+        (got, result)
+    });
+    match it {
+        Err(p) => {
+            obs.repo_panic(&p, json!({"what": "dvi::Deserializer panicked", "bytes": show_bytes(bytes), "context": ctx}));
+            return None;
+        }
+        Ok((got, result)) => {
+            if !same_ops(&got, &ops) || result != end {
+                obs.violation(
+                    "deserialize:iterator-and-step-api-disagree",
+                    json!({"bytes": show_bytes(bytes), "step_api": show_ops(&ops), "iterator": show_ops(&got),
+                           "step_end": format!("{end:?}"), "iterator_end": format!("{result:?}"), "context": ctx}),
+                );
+                return None;
+            }
+        }
+    }
+    Some(Decoded {
+        ops,
+        lens,
+        end,
+        residual,
+    })
+}
+
+/// Compare what the reader did with the independent framing model.
+fn check_framing(bytes: &[u8], d: &Decoded, obs: &mut Obs, ctx: &Value) -> bool {
+    let (frames, fend) = dvipos::frame(bytes);
+    let model_lens: Vec<usize> = frames.iter().map(|f| f.len).collect();
+    let end_ok = match (&d.end, fend) {
+        (Ok(()), FrameEnd::Complete) => d.residual == 0,
+        (Err(InvalidDviData::Truncated(op)), FrameEnd::Truncated { opcode, at }) => {
+            *op == opcode && bytes.len() - d.residual == at
+        }
+        (Err(InvalidDviData::InvalidOpCode(op)), FrameEnd::Invalid { opcode, at }) => {
+            *op == opcode && bytes.len() - d.residual == at
+        }
+        _ => false,
+    };
+    if model_lens != d.lens || !end_ok {
+        let k = d
+            .lens
+            .iter()
+            .zip(&model_lens)
+            .position(|(a, b)| a != b)
+            .unwrap_or(d.lens.len().min(model_lens.len()));
+        obs.violation(
+            format!(
+                "deserialize:framing-differs-from-dvi-standard end={}",
+                match &d.end {
+                    Ok(()) => "ok",
+                    Err(InvalidDviData::Truncated(_)) => "truncated",
+                    Err(InvalidDviData::InvalidOpCode(_)) => "invalid-opcode",
+                }
+            ),
+            json!({"bytes": show_bytes(bytes), "reader_command_lengths": d.lens.iter().take(300).collect::<Vec<_>>(),
+                   "model_command_lengths": model_lens.iter().take(300).collect::<Vec<_>>(), "first_difference_at_command": k,
+                   "reader_end": format!("{:?}", d.end), "reader_residual_bytes": d.residual,
+                   "model_end": format!("{fend:?}"), "context": ctx}),
+        );
+        return false;
+    }
+    true
+}
+
+#[derive(Default)]
+struct RtOutcome {
+    ok: bool,
+    known: bool,
+    bytes: Vec<u8>,
+}
+
+/// ops -> bytes -> ops. Reports violations / known finding; returns the bytes.
+fn check_round_trip(ops: &[Op], obs: &mut Obs, ctx: &Value) -> RtOutcome {
+    let mut out = RtOutcome::default();
+    let bytes = match catch(|| dvi::serialize(ops.to_vec())) {
+        Ok(b) => b,
+        Err(p) => {
+            obs.repo_panic(&p, json!({"what": "dvi::serialize panicked", "ops": show_ops(ops), "context": ctx}));
+            return out;
+        }
+    };
+    // Op::serialize appends to a caller's buffer: same bytes, nothing before them touched
+    {
+        let mut buf = vec![0xAAu8, 0x55];
+        let r = catch(|| {
+            for op in ops {
+                op.serialize(&mut buf);
+            }
+        });
+        if r.is_ok() && (buf[..2] != [0xAA, 0x55] || buf[2..] != bytes[..]) {
+            obs.violation(
+                "serialize:op-serialize-differs-from-dvi-serialize",
+                json!({"ops": show_ops(ops), "context": ctx}),
+            );
+            return out;
+        }
+    }
+    obs.add("rt_bytes_serialised", bytes.len() as u64);
+    let Some(d) = decode(&bytes, obs, ctx) else {
+        return out;
+    };
+    if let Err(e) = &d.end {
+        obs.violation(
+            format!("roundtrip:own-serialisation-rejected {}", match e {
+                InvalidDviData::Truncated(_) => "truncated",
+                InvalidDviData::InvalidOpCode(_) => "invalid-opcode",
+            }),
+            json!({"ops": show_ops(ops), "bytes": show_bytes(&bytes), "error": format!("{e:?}"),
+                   "decoded_before_error": d.ops.len(), "unconsumed_bytes": d.residual, "context": ctx}),
+        );
+        return out;
+    }
+    if d.residual != 0 {
+        obs.violation(
+            "roundtrip:bytes-left-unconsumed",
+            json!({"ops": show_ops(ops), "bytes": show_bytes(&bytes), "unconsumed_bytes": d.residual, "context": ctx}),
+        );
+        return out;
+    }
+    if !check_framing(&bytes, &d, obs, ctx) {
+        return out;
+    }
+    out.bytes = bytes;
+    if same_ops(&d.ops, ops) {
+        obs.add("rt_ops_round_tripped", ops.len() as u64);
+        out.ok = true;
+        return out;
+    }
+    // not equal: the one known deviation, or a violation
+    let (merged, triggered) = merge_post_post(ops);
+    if triggered && same_ops(&d.ops, &merged) {
+        obs.known(
+            KF_POSTPOST,
+            json!({"ops": show_ops(ops), "bytes": show_bytes(&out.bytes), "decoded": show_ops(&d.ops),
+                   "deviation_model": "every fnt_num_52 (one byte, 223) directly after post_post is read as one more 223 filler byte",
+                   "context": ctx}),
+        );
+        out.known = true;
+        return out;
+    }
+    let k = first_difference(ops, &d.ops).unwrap_or(0);
+    let kind = |o: Option<&Op>| -> String {
+        match o {
+            None => "<end>".into(),
+            Some(o) => {
+                let s = format!("{o:?}");
+                s.split(|c: char| !c.is_alphanumeric()).next().unwrap_or("").to_string()
+            }
+        }
+    };
+    obs.violation(
+        format!("roundtrip:decoded-ops-differ sent={} got={}", kind(ops.get(k)), kind(d.ops.get(k))),
+        json!({"first_difference_at_op": k, "sent": ops.get(k).map(short), "got": d.ops.get(k).map(short),
+               "ops": show_ops(ops), "bytes": show_bytes(&out.bytes), "decoded": show_ops(&d.ops),
+               "post_post_trigger_present": triggered, "context": ctx}),
+    );
+    out
+}
+
+fn is_motion(op: &Op) -> bool {
+    matches!(op, Op::Right(_) | Op::Down(_) | Op::Move(_) | Op::SetVar(_, _))
+}
+
+fn placed_json(p: &Placed) -> Value {
+    json!({"kind": format!("{:?}", p.kind), "page": p.page, "h_int": p.h.int,
+           "h_unmeasured_widths": p.h.sym.iter().take(40).map(|(c, f)| json!([c, f])).collect::<Vec<_>>(),
+           "v": p.v, "font": p.font, "op_index": p.op_index})
+}
+
+/// Width assignment used for the concrete cross-check of the symbolic comparison.
+fn concrete_width(salt: u64) -> impl Fn(u32, Option<u32>) -> i64 {
+    move |c, f| {
+        let h = stable_hash(&(salt, c, f));
+        (h % 2_000_001) as i64 - 1_000_000
+    }
+}
+
+/// Compare two streams through the independent tracker. Returns false if a violation was
+/// reported. `what` names the transformation for signatures.
+fn check_same_document(input: &[Op], output: &[Op], what: &str, obs: &mut Obs, ctx: &Value) -> bool {
+    // no Move / SetVar may remain
+    if let Some(k) = output
+        .iter()
+        .position(|op| matches!(op, Op::Move(_) | Op::SetVar(_, _)))
+    {
+        obs.violation(
+            format!("{what}:variable-op-remains"),
+            json!({"input": show_ops(input), "output": show_ops(output), "output_index": k, "context": ctx}),
+        );
+        return false;
+    }
+    // every operation other than the moves is unchanged, in order
+    let a: Vec<&Op> = input.iter().filter(|o| !is_motion(o)).collect();
+    let b: Vec<&Op> = output.iter().filter(|o| !is_motion(o)).collect();
+    let same = a.len() == b.len() && a.iter().zip(&b).all(|(x, y)| same_op(x, y));
+    if !same {
+        let k = a
+            .iter()
+            .zip(&b)
+            .position(|(x, y)| !same_op(x, y))
+            .unwrap_or(a.len().min(b.len()));
+        obs.violation(
+            format!("{what}:other-operation-changed"),
+            json!({"input": show_ops(input), "output": show_ops(output),
+                   "first_difference_among_non_move_ops": k,
+                   "input_op": a.get(k).map(|o| short(o)), "output_op": b.get(k).map(|o| short(o)), "context": ctx}),
+        );
+        return false;
+    }
+    let tin: Vec<TOp> = input.iter().map(to_tiny).collect();
+    let tout: Vec<TOp> = output.iter().map(to_tiny).collect();
+    let (pin, trk_in) = Tracker::run(&tin);
+    let (pout, _) = Tracker::run(&tout);
+    if pin.len() != pout.len() {
+        // cannot happen when the non-move ops are equal; defensive
+        obs.inconclusive("tracker produced different numbers of placed elements for equal typeset ops");
+        return false;
+    }
+    let width = concrete_width(obs.idx() ^ 0x9e37);
+    for (x, y) in pin.iter().zip(&pout) {
+        let same_sym = x.kind == y.kind && x.page == y.page && x.h == y.h && x.v == y.v;
+        let same_font = x.font == y.font;
+        if !same_sym || !same_font {
+            let sig = if !same_font {
+                format!("{what}:font-of-typeset-element-changed")
+            } else if x.h != y.h && x.v != y.v {
+                format!("{what}:position-changed h+v")
+            } else if x.h != y.h {
+                format!("{what}:position-changed h")
+            } else if x.v != y.v {
+                format!("{what}:position-changed v")
+            } else {
+                format!("{what}:typeset-element-changed")
+            };
+            obs.violation(
+                sig,
+                json!({"input": show_ops(input), "output": show_ops(output),
+                       "in_input": placed_json(x), "in_output": placed_json(y), "context": ctx}),
+            );
+            return false;
+        }
+        // second formulation: evaluate both under a concrete width assignment
+        if x.h.concrete(&width) != y.h.concrete(&width) {
+            obs.inconclusive("symbolic h equal but concrete h differs (model bug)");
+            return false;
+        }
+    }
+    obs.add("vr_placed_elements_compared", pin.len() as u64);
+    obs.add(
+        "vr_placed_with_unmeasured_widths_in_h",
+        pin.iter().filter(|p| !p.h.sym.is_empty()).count() as u64,
+    );
+    obs.add("vr_placed_on_page_2_or_later", pin.iter().filter(|p| p.page >= 2).count() as u64);
+    let s = &trk_in.stats;
+    obs.add("vr_variable_ops", s.reg_ops as u64);
+    obs.add("vr_moves_by_nonzero_variable", s.moves_nonzero as u64);
+    obs.add("vr_pops_restoring_a_different_variable_value", s.pops_restoring_regs as u64);
+    obs.add("vr_pops_on_empty_stack", s.pops_on_empty as u64);
+    obs.add("vr_bops_discarding_open_pushes", s.bops_discarding_stack as u64);
+    obs.add("vr_bops_resetting_nonzero_variables", s.bops_resetting_regs as u64);
+    obs.add("vr_coordinates_within_2_of_i32_limit", s.near_i32_limit as u64);
+    if s.max_depth >= 3 {
+        obs.count("vr_cases_stack_depth_ge_3");
+    }
+    if output.len() == input.len() {
+        obs.count("vr_output_same_length_as_input");
+    }
+    true
+}
+
+fn model_in_range(ops: &[Op]) -> bool {
+    let t: Vec<TOp> = ops.iter().map(to_tiny).collect();
+    let (_, trk) = Tracker::run(&t);
+    !trk.stats.left_i32
+}
+
+/// VarRemover applied directly to the operations.
+fn check_var_remover(ops: &[Op], obs: &mut Obs, ctx: &Value) -> Option<Vec<Op>> {
+    if !model_in_range(ops) {
+        obs.skip("coordinates-leave-i32");
+        return None;
+    }
+    let out = match catch(|| VarRemover::new(ops.to_vec()).collect::<Vec<Op>>()) {
+        Ok(o) => o,
+        Err(p) => {
+            obs.repo_panic(&p, json!({"what": "VarRemover panicked", "ops": show_ops(ops), "context": ctx}));
+            return None;
+        }
+    };
+    obs.count("vr_streams_checked");
+    if check_same_document(ops, &out, "varremover", obs, ctx) {
+        Some(out)
+    } else {
+        None
+    }
+}
+
+/// The `dvitools normalize` pipeline, with library calls only.
+fn check_pipeline(ops: &[Op], bytes: &[u8], direct: &[Op], obs: &mut Obs, ctx: &Value) {
+    let r = catch(|| {
+        let mut result = Ok(());
+        let out = {
+            let mut i1 = Deserializer::new(bytes, &mut result);
+            let i2 = VarRemover::new(&mut i1);
+            dvi::serialize(i2)
+        };
+        (out, result)
+    });
+    let (out_bytes, result) = match r {
+        Ok(x) => x,
+        Err(p) => {
+            obs.repo_panic(&p, json!({"what": "normalize pipeline panicked", "ops": show_ops(ops), "context": ctx}));
+            return;
+        }
+    };
+    if result.is_err() {
+        obs.violation(
+            "pipeline:own-serialisation-rejected",
+            json!({"ops": show_ops(ops), "error": format!("{result:?}"), "context": ctx}),
+        );
+        return;
+    }
+    let Some(d) = decode(&out_bytes, obs, ctx) else {
+        return;
+    };
+    if d.end.is_err() || d.residual != 0 {
+        obs.violation(
+            "pipeline:normalised-bytes-not-readable",
+            json!({"ops": show_ops(ops), "normalised_bytes": show_bytes(&out_bytes), "end": format!("{:?}", d.end), "context": ctx}),
+        );
+        return;
+    }
+    obs.count("pipeline_runs");
+    // must be the same document as the input (tracker) and the same ops as the direct transform
+    if !check_same_document(ops, &d.ops, "pipeline", obs, ctx) {
+        return;
+    }
+    if !same_ops(&d.ops, direct) {
+        obs.violation(
+            "pipeline:differs-from-direct-varremover",
+            json!({"ops": show_ops(ops), "direct": show_ops(direct), "through_bytes": show_ops(&d.ops), "context": ctx}),
+        );
+    }
+}
+
+fn boundary_table() -> &'static Vec<Op> {
+    static T: OnceLock<Vec<Op>> = OnceLock::new();
+    T.get_or_init(gen::boundary_ops)
+}
+
+fn variant_name(op: &Op) -> &'static str {
+    match op {
+        Op::TypesetChar { move_h: true, .. } => "set_char",
+        Op::TypesetChar { move_h: false, .. } => "put_char",
+        Op::TypesetRule { move_h: true, .. } => "set_rule",
+        Op::TypesetRule { move_h: false, .. } => "put_rule",
+        Op::NoOp => "nop",
+        Op::BeginPage { .. } => "bop",
+        Op::EndPage => "eop",
+        Op::Push => "push",
+        Op::Pop => "pop",
+        Op::Right(_) => "right",
+        Op::Move(_) => "move_var",
+        Op::SetVar(_, _) => "set_var",
+        Op::Down(_) => "down",
+        Op::EnableFont(_) => "fnt",
+        Op::Extension(_) => "xxx",
+        Op::DefineFont { .. } => "fnt_def",
+        Op::Preamble { .. } => "pre",
+        Op::BeginPostamble { .. } => "post",
+        Op::EndPostamble { .. } => "post_post",
+    }
+}
+
+impl M {
+    fn case_boundary(&self, idx: u64, obs: &mut Obs) {
+        let table = boundary_table();
+        let op = &table[idx as usize];
+        let ctx = json!({"phase": "boundary", "op": short(op)});
+        // alone
+        let r = check_round_trip(std::slice::from_ref(op), obs, &ctx);
+        // and between neighbours (a following command must start exactly after it)
+        let ctx_ops = vec![Op::Push, op.clone(), Op::TypesetChar { char: 65, move_h: true }, op.clone(), Op::NoOp];
+        let r2 = check_round_trip(&ctx_ops, obs, &ctx);
+        if r.ok && r2.ok {
+            obs.count("boundary_ops_round_tripped");
+            obs.count(&format!("boundary_kind:{}", variant_name(op)));
+            if let Some(b) = r.bytes.first() {
+                // which operand width the serialiser chose
+                let (frames, _) = dvipos::frame(&r.bytes);
+                if frames.len() == 1 {
+                    obs.count(&format!("boundary_encoded_len:{}", frames[0].len.min(10)));
+                }
+                let _ = b;
+            }
+        }
+        obs.nontrivial_by_construction(1);
+        if obs.wants_sample() {
+            obs.sample(json!({"op": short(op), "bytes": show_bytes(&r.bytes), "round_tripped": r.ok}));
+        }
+    }
+
+    fn case_opcode(&self, idx: u64, obs: &mut Obs) {
+        let opcode = idx as u8;
+        let bytes = gen::canonical_bytes(opcode);
+        let ctx = json!({"phase": "opcodes", "opcode": opcode});
+        let Some(d) = decode(&bytes, obs, &ctx) else {
+            return;
+        };
+        if !check_framing(&bytes, &d, obs, &ctx) {
+            return;
+        }
+        obs.nontrivial_by_construction(1);
+        if opcode >= 250 {
+            // undefined opcodes: the documented error, nothing else
+            if d.end == Err(InvalidDviData::InvalidOpCode(opcode)) && d.ops.is_empty() {
+                obs.count("opcodes_undefined_rejected");
+            }
+            return;
+        }
+        if d.end.is_err() || d.ops.len() != 1 {
+            obs.violation(
+                "opcodes:canonical-command-not-read-as-one-op",
+                json!({"opcode": opcode, "bytes": show_bytes(&bytes), "end": format!("{:?}", d.end), "ops": show_ops(&d.ops)}),
+            );
+            return;
+        }
+        // the op reached from this opcode must round-trip (ops -> bytes -> ops)
+        let r = check_round_trip(&d.ops, obs, &ctx);
+        if r.ok {
+            obs.count("opcodes_defined_reached_and_round_tripped");
+            if r.bytes == bytes {
+                obs.count("opcodes_reencoded_to_identical_bytes");
+            }
+        }
+        // every proper prefix is a truncation of this command: documented error, no panic
+        let step = (bytes.len() / 64).max(1);
+        let mut cut = 1;
+        while cut < bytes.len() {
+            let pre = &bytes[..cut];
+            if let Some(dp) = decode(pre, obs, &ctx) {
+                if check_framing(pre, &dp, obs, &ctx) {
+                    if let Err(InvalidDviData::Truncated(o)) = dp.end {
+                        if o == opcode {
+                            obs.count("opcodes_truncations_reported_as_truncated");
+                        }
+                    }
+                }
+            }
+            cut += if cut < 64 { 1 } else { step };
+        }
+        if obs.wants_sample() {
+            obs.sample(json!({"opcode": opcode, "bytes": show_bytes(&bytes), "op": d.ops.first().map(short)}));
+        }
+    }
+
+    fn case_seq(&self, rng: &mut Rng, obs: &mut Obs) {
+        let profile = match rng.below(10) {
+            0..=2 => Profile::Document,
+            3..=5 => Profile::Messy,
+            _ => Profile::Motion,
+        };
+        let (ops, clamped, limit_hits) = gen::gen_sequence(rng, profile, 200);
+        obs.add("seq_ops_generated", ops.len() as u64);
+        obs.add("seq_moves_redirected_to_stay_in_i32", clamped as u64);
+        obs.add("seq_moves_landing_exactly_on_i32_limit", limit_hits as u64);
+        obs.count(match profile {
+            Profile::Document => "seq_profile_document",
+            Profile::Messy => "seq_profile_messy",
+            Profile::Motion => "seq_profile_motion",
+        });
+        let ctx = json!({"phase": "seq", "profile": format!("{profile:?}")});
+        let rt = check_round_trip(&ops, obs, &ctx);
+        let direct = check_var_remover(&ops, obs, &ctx);
+        if let (true, Some(direct)) = (rt.ok, &direct) {
+            if rng.chance(1, 3) {
+                check_pipeline(&ops, &rt.bytes, direct, obs, &ctx);
+            }
+        }
+        // idempotence of the transform is implied by the property (output has no variables)
+        if let Some(direct) = &direct {
+            if rng.chance(1, 8) {
+                if let Ok(again) = catch(|| VarRemover::new(direct.clone()).collect::<Vec<Op>>()) {
+                    if !same_ops(&again, direct) {
+                        obs.violation(
+                            "varremover:changes-a-stream-without-variables",
+                            json!({"input": show_ops(direct), "output": show_ops(&again)}),
+                        );
+                    }
+                }
+            }
+        }
+        let has_var = ops.iter().any(|o| matches!(o, Op::Move(_) | Op::SetVar(_, _)));
+        let has_typeset = ops
+            .iter()
+            .any(|o| matches!(o, Op::TypesetChar { .. } | Op::TypesetRule { .. }));
+        if has_var && has_typeset {
+            obs.count("seq_cases_with_variables_and_typeset_material");
+        }
+        let tiny: Vec<TOp> = ops.iter().map(to_tiny).collect();
+        obs.nontrivial(&tiny);
+        if obs.wants_sample() {
+            let (placed, _) = Tracker::run(&tiny);
+            obs.sample(json!({
+                "profile": format!("{profile:?}"), "ops": show_ops(&ops[..ops.len().min(30)]), "n_ops": ops.len(),
+                "bytes": rt.bytes.len(), "round_tripped": rt.ok, "known_deviation": rt.known,
+                "varremover_output_head": direct.as_ref().map(|d| show_ops(&d[..d.len().min(30)])),
+                "placed_elements_head": placed.iter().take(5).map(placed_json).collect::<Vec<_>>(),
+            }));
+        }
+    }
+
+    fn case_bytes(&self, rng: &mut Rng, obs: &mut Obs) {
+        let (bytes, how) = if rng.chance(1, 4) {
+            (gen::noise(rng), "noise")
+        } else {
+            let p = if rng.coin() { Profile::Document } else { Profile::Messy };
+            let (a, _, _) = gen::gen_sequence(rng, p, 40);
+            let (b, _, _) = gen::gen_sequence(rng, Profile::Messy, 12);
+            let sa = catch(|| dvi::serialize(a)).unwrap_or_default();
+            let sb = catch(|| dvi::serialize(b)).unwrap_or_default();
+            (gen::mutate(rng, &sa, &sb), "mutated-serialisation")
+        };
+        let ctx = json!({"phase": "bytes", "how": how});
+        obs.add("bytes_total_fed", bytes.len() as u64);
+        let Some(d) = decode(&bytes, obs, &ctx) else {
+            return;
+        };
+        obs.count(match &d.end {
+            Ok(()) => "bytes_end_ok",
+            Err(InvalidDviData::Truncated(_)) => "bytes_end_truncated",
+            Err(InvalidDviData::InvalidOpCode(_)) => "bytes_end_invalid_opcode",
+        });
+        obs.add("bytes_ops_decoded", d.ops.len() as u64);
+        if !check_framing(&bytes, &d, obs, &ctx) {
+            return;
+        }
+        // Display of the documented errors must work too
+        if let Err(e) = &d.end {
+            if let Err(p) = catch(|| format!("{e}")) {
+                obs.repo_panic(&p, json!({"what": "Display of InvalidDviData panicked"}));
+            }
+        }
+        // whatever the reader returned is a sequence of operations: it must round-trip, provided
+        // its strings are inside the quantifier (lossy UTF-8 decoding can grow them past 255 bytes)
+        if !d.ops.is_empty() {
+            if strings_fit(&d.ops) {
+                let r = check_round_trip(&d.ops, obs, &ctx);
+                if r.ok {
+                    obs.count("bytes_decoded_ops_round_tripped_again");
+                }
+            } else {
+                obs.skip("decoded-string-longer-than-255-bytes");
+            }
+        }
+        if !d.ops.is_empty() || d.end.is_err() {
+            obs.nontrivial(&bytes);
+        }
+        if obs.wants_sample() {
+            obs.sample(json!({"how": how, "bytes": show_bytes(&bytes), "decoded": show_ops(&d.ops[..d.ops.len().min(12)]),
+                              "n_decoded": d.ops.len(), "end": format!("{:?}", d.end), "unconsumed": d.residual}));
+        }
+    }
+
+    fn case_known(&self, idx: u64, obs: &mut Obs) {
+        // one fixed reproducer per listed finding, so that the finding stays visible in every run
+        // while it exists (and silently passes once it is gone)
+        match idx {
+            0 => {
+                let ops = vec![
+                    Op::EndPostamble {
+                        postamble: 100,
+                        dvi_format: 2,
+                        num_223_bytes: 4,
+                    },
+                    Op::EnableFont(52),
+                ];
+                let ctx = json!({"phase": "known", "reproducer": KF_POSTPOST});
+                let r = check_round_trip(&ops, obs, &ctx);
+                obs.count(if r.known {
+                    "known_reproducer_deviates"
+                } else {
+                    "known_reproducer_conforms"
+                });
+            }
+            _ => {}
+        }
+        obs.nontrivial_by_construction(1);
+    }
+}
 
 impl Monitor for M {
     fn id(&self) -> &'static str {
         "C16"
     }
+
     fn rule(&self) -> String {
-        "not built yet".into()
+        "boundary: every dvi::Op kind with every operand at 0, ±1..3, ±2^k+{-2..2} (k=7,15,23,31) resp. the unsigned \
+         1/2/3/4-byte limits, strings of 0/1/2/127/128/254/255 bytes in 1..4-byte UTF-8 scalars, xxx payloads up to 2^24 \
+         bytes; each alone and between neighbours (distinct by construction). opcodes: each of the 256 first bytes with a \
+         canonical operand, plus every truncation of it. seq: 1..200 generated ops in three profiles (well-formed document / \
+         anything anywhere incl. pop on empty stack and bop with open pushes / move-heavy), integer coordinates kept inside \
+         i32 by simulating the model tracker while generating; non-trivial = distinct tiny-op sequence. bytes: noise and \
+         1-4 byte-level mutations (flip, overwrite, delete, insert, duplicate, truncate, splice) of valid serialisations; \
+         non-trivial = at least one command decoded or an error reported, distinct by byte string."
+            .into()
     }
+
     fn assumptions(&self) -> Vec<String> {
-        vec![]
+        vec![
+            "Strings in generated ops are at most 255 bytes (the quantifier); longer strings are truncated by the serialiser and are not probed.".into(),
+            "VarRemover sequences keep the integer parts of h, v inside i32 at every step (wrap-around is unspecified; the code panics on overflow in checked builds).".into(),
+            "pop on an empty stack leaves all registers unchanged (DVItype §83 behaviour; the DVI standard leaves it undefined).".into(),
+            "Positions are compared at typeset characters and rules only, as the property states; the register state at other commands is not compared.".into(),
+            "Operations other than Right/Down/Move/SetVar must come out of VarRemover unchanged and in order; how moves are re-expressed (one Right/Down per variable op, or any other equivalent list of moves) is left free.".into(),
+            "The framing model follows the repository's reading that post_post owns every directly following byte 223.".into(),
+            "The field order inside post_post (format byte before the pointer, TeX §590 has the pointer first) is not part of this property and is not checked.".into(),
+        ]
     }
-    fn phases(&self, _tier: Tier) -> Vec<Phase> {
-        vec![]
+
+    fn phases(&self, tier: Tier) -> Vec<Phase> {
+        vec![
+            Phase::new("known", 1).batch(1),
+            Phase::new("opcodes", 256)
+                .batch(4)
+                .exhaustive("all 256 values of the first byte of a command, with canonical operands and every truncation"),
+            Phase::new("boundary", boundary_table().len() as u64)
+                .batch(8)
+                .exhaustive("every op kind x every operand at every width boundary value (see rule)"),
+            Phase::new("seq", tier.pick(200_000, 20_000_000)).batch(256),
+            Phase::new("bytes", tier.pick(300_000, 30_000_000)).batch(512),
+        ]
     }
-    fn run_case(&self, _phase: &str, _idx: u64, _rng: &mut Rng, _obs: &mut Obs) {}
+
+    fn floors(&self, tier: Tier) -> Vec<(&'static str, u64)> {
+        let k = tier.pick(1, 50);
+        vec![
+            ("opcodes_defined_reached_and_round_tripped", 250),
+            ("opcodes_undefined_rejected", 6),
+            ("opcodes_truncations_reported_as_truncated", 500),
+            ("boundary_ops_round_tripped", 1500),
+            ("boundary_kind:set_var", 100),
+            ("boundary_kind:fnt_def", 100),
+            ("boundary_kind:xxx", 50),
+            ("rt_ops_round_tripped", 5_000_000 * k),
+            ("vr_streams_checked", 150_000 * k),
+            ("vr_placed_elements_compared", 2_000_000 * k),
+            ("vr_placed_with_unmeasured_widths_in_h", 500_000 * k),
+            ("vr_placed_on_page_2_or_later", 100_000 * k),
+            ("vr_variable_ops", 1_000_000 * k),
+            ("vr_moves_by_nonzero_variable", 200_000 * k),
+            ("vr_pops_restoring_a_different_variable_value", 50_000 * k),
+            ("vr_pops_on_empty_stack", 20_000 * k),
+            ("vr_bops_discarding_open_pushes", 10_000 * k),
+            ("vr_bops_resetting_nonzero_variables", 20_000 * k),
+            ("vr_coordinates_within_2_of_i32_limit", 10_000 * k),
+            ("vr_cases_stack_depth_ge_3", 20_000 * k),
+            ("seq_moves_landing_exactly_on_i32_limit", 5_000 * k),
+            ("pipeline_runs", 30_000 * k),
+            ("bytes_end_ok", 10_000 * k),
+            ("bytes_end_truncated", 50_000 * k),
+            ("bytes_end_invalid_opcode", 20_000 * k),
+            ("bytes_ops_decoded", 1_000_000 * k),
+            ("bytes_decoded_ops_round_tripped_again", 100_000 * k),
+        ]
+    }
+
+    fn calibrate(&self, obs: &mut Obs) {
+        calibrate(obs);
+    }
+
+    fn run_case(&self, phase: &str, idx: u64, rng: &mut Rng, obs: &mut Obs) {
+        match phase {
+            "known" => self.case_known(idx, obs),
+            "opcodes" => self.case_opcode(idx, obs),
+            "boundary" => self.case_boundary(idx, obs),
+            "seq" => self.case_seq(rng, obs),
+            "bytes" => self.case_bytes(rng, obs),
+            other => obs.inconclusive(format!("unknown phase {other}")),
+        }
+    }
+
+    fn stack_bytes(&self) -> usize {
+        256 << 20
+    }
+}
+
+// ------------------------------------------------------------------------------------------
+// Calibration of the two models against ground truth found in the repository:
+// the `values_tests!` table in crates/dvi/src/lib.rs (expected h, v, w, x, y, z, f after short
+// op lists), the `serde_tests!` byte tables and doc examples (command framing), and the two
+// documented VarRemover examples in crates/dvi/src/transforms.rs.
+
+fn calibrate(obs: &mut Obs) {
+    use TOp::*;
+    struct Want {
+        h: i64,
+        n_sym: usize,
+        v: i64,
+        r: [i64; 4],
+        f: Option<u32>,
+    }
+    let w0 = || Want {
+        h: 0,
+        n_sym: 0,
+        v: 0,
+        r: [0; 4],
+        f: None,
+    };
+    // (name in values_tests!, ops, expectation)
+    let table: Vec<(&str, Vec<TOp>, Want)> = vec![
+        ("noop", vec![Nop], w0()),
+        ("extension", vec![Inert], w0()),
+        ("enable_font_1", vec![Fnt(3), Fnt(3)], Want { f: Some(3), ..w0() }),
+        ("enable_font_2", vec![Fnt(3), Push, Fnt(5), Pop], Want { f: Some(5), ..w0() }),
+        ("var_w_1", vec![SetReg(Reg::W, 5), SetReg(Reg::W, 5)], Want { h: 10, r: [5, 0, 0, 0], ..w0() }),
+        ("var_w_2", vec![SetReg(Reg::W, 5), Push, SetReg(Reg::W, 3), Pop], Want { h: 5, r: [5, 0, 0, 0], ..w0() }),
+        ("var_w_3", vec![SetReg(Reg::W, 5), Push, SetReg(Reg::W, 5), Pop], Want { h: 5, r: [5, 0, 0, 0], ..w0() }),
+        ("var_w_4", vec![SetReg(Reg::W, 5), SetReg(Reg::W, 0), SetReg(Reg::W, 0)], Want { h: 5, ..w0() }),
+        ("var_w_5", vec![SetReg(Reg::W, 5), Move(Reg::W)], Want { h: 10, r: [5, 0, 0, 0], ..w0() }),
+        ("var_w_6", vec![SetReg(Reg::W, 0), Move(Reg::W)], w0()),
+        ("var_x", vec![SetReg(Reg::X, 5), SetReg(Reg::X, 5), Move(Reg::X)], Want { h: 15, r: [0, 5, 0, 0], ..w0() }),
+        ("var_y", vec![SetReg(Reg::Y, 5), SetReg(Reg::Y, 5), Move(Reg::Y)], Want { v: 15, r: [0, 0, 5, 0], ..w0() }),
+        ("var_z", vec![SetReg(Reg::Z, 5), SetReg(Reg::Z, 5), Move(Reg::Z)], Want { v: 15, r: [0, 0, 0, 5], ..w0() }),
+        ("right_1", vec![Right(5)], Want { h: 5, ..w0() }),
+        ("right_2", vec![Right(0)], w0()),
+        ("down_1", vec![Down(5)], Want { v: 5, ..w0() }),
+        ("rule_1", vec![SetRule { height: 2, width: 3 }], Want { h: 3, ..w0() }),
+        ("rule_2", vec![SetRule { height: 2, width: 0 }], w0()),
+        ("rule_3", vec![PutRule { height: 2, width: 3 }], w0()),
+        (
+            "begin_page_1",
+            vec![SetReg(Reg::W, 1), SetReg(Reg::X, 2), SetReg(Reg::Y, 3), SetReg(Reg::Z, 4), Bop],
+            w0(),
+        ),
+        ("end_page", vec![Eop], w0()),
+        ("typeset_char_1", vec![SetChar(1)], Want { n_sym: 1, ..w0() }),
+        ("typeset_char_2", vec![PutChar(1)], w0()),
+        ("typeset_char_3", vec![Push, SetChar(1), Pop], w0()),
+        // Values::h doc example
+        ("values_h_doc", vec![Right(1), Fnt(2), SetChar(68), SetChar(86), SetChar(73)], Want { h: 1, n_sym: 3, f: Some(2), ..w0() }),
+        // Values doc example
+        ("values_doc", vec![SetReg(Reg::Y, 3), Push, SetReg(Reg::Y, 5), Pop], Want { v: 3, r: [0, 0, 3, 0], ..w0() }),
+    ];
+    for (name, ops, want) in &table {
+        let (_, t) = Tracker::run(ops);
+        let got_r = [t.reg(Reg::W), t.reg(Reg::X), t.reg(Reg::Y), t.reg(Reg::Z)];
+        // the repo's Values never forgets the font at bop and starts with f = 0; where the table
+        // says f: 0 without any fnt command we expect "undefined"
+        let ok = t.h().int == want.h
+            && t.h().sym.len() == want.n_sym
+            && t.v() == want.v
+            && got_r == want.r
+            && t.font() == want.f;
+        if ok {
+            obs.count("calibration_tracker_rows_ok");
+        } else {
+            obs.inconclusive(format!("tracker disagrees with dvi values_tests row {name}"));
+        }
+    }
+    // VarRemover documentation examples: the documented output is the same document as the input
+    let ex_in = vec![
+        SetReg(Reg::X, 3),
+        Push,
+        SetReg(Reg::X, 5),
+        PutChar(1),
+        Move(Reg::X),
+        PutChar(2),
+        Pop,
+        Move(Reg::X),
+        PutChar(3),
+    ];
+    let ex_out = vec![
+        Right(3),
+        Push,
+        Right(5),
+        PutChar(1),
+        Right(5),
+        PutChar(2),
+        Pop,
+        Right(3),
+        PutChar(3),
+    ];
+    let (a, _) = Tracker::run(&ex_in);
+    let (b, _) = Tracker::run(&ex_out);
+    let same = a.len() == b.len() && a.iter().zip(&b).all(|(x, y)| x.h == y.h && x.v == y.v && x.font == y.font);
+    let hs: Vec<i64> = a.iter().map(|p| p.h.int).collect();
+    if same && hs == vec![8, 13, 6] {
+        obs.count("calibration_tracker_rows_ok");
+    } else {
+        obs.inconclusive("tracker disagrees with the VarRemover documentation example");
+    }
+    let (a, _) = Tracker::run(&[SetReg(Reg::X, 3), Move(Reg::X), PutChar(68)]);
+    if a.len() == 1 && a[0].h.int == 6 && a[0].v == 0 {
+        obs.count("calibration_tracker_rows_ok");
+    } else {
+        obs.inconclusive("tracker disagrees with the transforms module documentation example (6,0)");
+    }
+
+    // framing: (bytes from serde_tests! / doc examples, expected number of commands, expected end)
+    let frames: Vec<(Vec<u8>, usize, FrameEnd)> = vec![
+        (vec![0], 1, FrameEnd::Complete),
+        (vec![127], 1, FrameEnd::Complete),
+        (vec![128, 255], 1, FrameEnd::Complete),
+        (vec![129, 255, 255], 1, FrameEnd::Complete),
+        (vec![130, 1, 2, 3], 1, FrameEnd::Complete),
+        (vec![131, 1, 2, 3, 4], 1, FrameEnd::Complete),
+        (vec![132, 0, 0, 0, 1, 0, 0, 0, 2], 1, FrameEnd::Complete),
+        (vec![133, 1], 1, FrameEnd::Complete),
+        (vec![136, 1, 2, 3, 4], 1, FrameEnd::Complete),
+        (vec![137, 0, 0, 0, 1, 0, 0, 0, 2], 1, FrameEnd::Complete),
+        (vec![138], 1, FrameEnd::Complete),
+        ({ let mut b = vec![139]; b.extend([0u8; 44]); b }, 1, FrameEnd::Complete),
+        (vec![140, 141, 142], 3, FrameEnd::Complete),
+        (vec![143, 1], 1, FrameEnd::Complete),
+        (vec![144, 1, 0], 1, FrameEnd::Complete),
+        (vec![145, 1, 0, 0], 1, FrameEnd::Complete),
+        (vec![146, 1, 0, 0, 0], 1, FrameEnd::Complete),
+        (vec![147, 152, 161, 166], 4, FrameEnd::Complete),
+        (vec![151, 1, 0, 0, 0, 156, 1, 0, 0, 0], 2, FrameEnd::Complete),
+        (vec![160, 1, 0, 0, 0, 165, 1, 0, 0, 0, 170, 1, 0, 0, 0], 3, FrameEnd::Complete),
+        (vec![171, 234], 2, FrameEnd::Complete),
+        (vec![235, 64, 238, 1, 0, 0, 0], 2, FrameEnd::Complete),
+        (vec![239, 3, 1, 2, 3], 1, FrameEnd::Complete),
+        (vec![245, 1, 1, 1, 0, 0, 0, 2, 0, 0, 0, 3, 0, 0, 0, 4, 2, 3, 99, 109, 114, 49, 48], 1, FrameEnd::Complete),
+        (vec![246, 1, 0, 0, 0, 0, 0, 0, 2, 0, 0, 0, 3, 0, 0, 0, 4, 0, 0], 1, FrameEnd::Complete),
+        (vec![247, 2, 0, 0, 0, 3, 0, 0, 0, 5, 1, 2, 3, 4, 3, 65, 66, 67], 1, FrameEnd::Complete),
+        (
+            vec![248, 0, 0, 0, 1, 0, 0, 0, 2, 0, 0, 0, 3, 0, 0, 0, 4, 0, 0, 0, 5, 0, 0, 0, 6, 0, 7, 0, 8],
+            1,
+            FrameEnd::Complete,
+        ),
+        (vec![249, 1, 0, 0, 0, 2, 223, 223, 223, 223, 223, 223], 1, FrameEnd::Complete),
+        (vec![158, 1, 0, 68, 86, 73], 4, FrameEnd::Complete),
+        (vec![128, 4, 129, 1, 0], 2, FrameEnd::Complete),
+        (vec![158, 1, 0, 255], 1, FrameEnd::Invalid { opcode: 255, at: 3 }),
+        (vec![254], 0, FrameEnd::Invalid { opcode: 254, at: 0 }),
+        (vec![129, 1], 0, FrameEnd::Truncated { opcode: 129, at: 0 }),
+    ];
+    for (bytes, n, end) in &frames {
+        let (f, e) = dvipos::frame(bytes);
+        if f.len() == *n && e == *end {
+            obs.count("calibration_framing_rows_ok");
+        } else {
+            obs.inconclusive(format!("framing model disagrees with a dvi unit-test byte table: {bytes:?}"));
+        }
+    }
 }
